@@ -2,6 +2,7 @@
     (line_to_cmds), tokenizing (parse_line), the expansion passes (a parameter
     constrained by their entry guards) and planning give back the name, in the
     three quoting contexts, for every name outside the known classes. *)
+From Cicada Require Import Proofs.SplitLtProofs.
 From Cicada Require Import Base.Chars Base.Tag Gen.EscapeClass Model.Tokenizer Model.Redirect Model.Cmds
   Model.Complete Proofs.TokenizerProofs Proofs.TokenizerEscProofs Proofs.RedirectProofs
   Proofs.ListExecProofs Proofs.CmdsProofs.
@@ -40,7 +41,8 @@ Proof. intros. rewrite escape_path_text. now apply (parse_line_escaped in_escape
 Definition arg_ok (t : token) : bool :=
   negb (tag_eqb (fst t) TNone) ||
   (negb (has_char c_gt (snd t)) && negb (str_eqb (snd t) s_lt) && negb (str_eqb (snd t) s_lt3) &&
-   negb (str_eqb (snd t) [c_pipe]) && negb (str_eqb (snd t) [c_amp])).
+   negb (str_eqb (snd t) [c_pipe]) && negb (str_eqb (snd t) [c_amp]) &&
+   negb (starts_with_c c_lt (snd t))).   (* /repo 543507e: an untagged <file is split *)
 
 Theorem plan_two cmd t :
   cmd_ok cmd = true -> arg_ok t = true ->
@@ -58,14 +60,18 @@ Proof.
     cbn [split_pipes tag_eqb andb is_empty app]. rewrite Etg.
     match goal with H : str_eqb cmd [c_pipe] = false |- _ => rewrite H end.
     match goal with H : str_eqb w [c_pipe] = false |- _ => rewrite H end. cbn [andb is_empty app].
-    cbn [map_cmds]. unfold from_tokens. cbn [length from_loop has_from existsb fst snd tag_eqb andb]. rewrite Etg.
+    cbn [map_cmds]. rewrite from_tokens_nosplit.
+    2:{ cbn [existsb]. rewrite !att_lt_sw by assumption. reflexivity. }
+    unfold from_tokens_core. cbn [length from_loop has_from existsb fst snd tag_eqb andb]. rewrite Etg.
     repeat match goal with H : str_eqb _ _ = false |- _ => rewrite H end. cbn [orb andb].
     unfold tokens_to_redirections. cbn [redir_loop]. unfold redir_step.
     cbn [r_tbc r_new r_red r_s1 r_s2 tag_eqb negb andb app]. rewrite Etg.
     repeat match goal with H : has_char c_gt _ = false |- _ => rewrite H end. cbn [negb andb app is_empty]. reflexivity.
   - cbn [andb]. cbn [split_pipes tag_eqb andb is_empty app]. rewrite Etg.
     match goal with H : str_eqb cmd [c_pipe] = false |- _ => rewrite H end. cbn [andb is_empty app].
-    cbn [map_cmds]. unfold from_tokens. cbn [length from_loop has_from existsb fst snd tag_eqb andb]. rewrite Etg.
+    cbn [map_cmds]. rewrite from_tokens_nosplit.
+    2:{ cbn [existsb]. rewrite att_lt_sw by assumption. rewrite (att_lt_tagged tg w Etg). reflexivity. }
+    unfold from_tokens_core. cbn [length from_loop has_from existsb fst snd tag_eqb andb]. rewrite Etg.
     repeat match goal with H : str_eqb _ _ = false |- _ => rewrite H end. cbn [orb andb].
     unfold tokens_to_redirections. cbn [redir_loop]. unfold redir_step.
     cbn [r_tbc r_new r_red r_s1 r_s2 tag_eqb negb andb app]. rewrite Etg.
@@ -108,7 +114,10 @@ Proof.
   { apply str_eqb_neq. apply (has_char_false_neq _ _ Hlt). }
   assert (D : str_eqb s [c_pipe] = false).
   { apply str_eqb_neq. intros ->. discriminate. }
-  now rewrite A, B, D.
+  assert (S0 : starts_with_c c_lt s = false).
+  { destruct s as [|c r]; [reflexivity|]. cbn [has_char] in Hlt. cbn [starts_with_c].
+    apply orb_false_iff in Hlt. destruct Hlt as [Hc _]. exact Hc. }
+  now rewrite A, B, D, S0.
 Qed.
 
 (** * The list splitter on the completed lines *)
